@@ -7,6 +7,7 @@
            abstracted to identifiers) must emit the same events, consume exactly the recorded
            calls, and flush as often as recorded. *)
 From Coq Require Import List ZArith NArith Bool Arith.
+From RxVerif Require Import Compress.ZstdFrame.
 From RxVerif Require Import Compress.Inflate.
 From RxVerif Require Import Base.Corr Compress.Wrapper.
 Import ListNotations.
@@ -27,7 +28,11 @@ Inductive c16case :=
             with this payload and no unused data, 1 = valid so far but incomplete, 2 = zlib.error.  Compared one
             way only where zlib's own choice between "error" and "incomplete" is an implementation matter:
             complete <-> Done with the same payload; otherwise the model must not say Done. *)
-| CGunzip (stream payload : list Z) (cuts : list nat) (mutants : list (list Z * N * list Z)).
+| CGunzip (stream payload : list Z) (cuts : list nat) (mutants : list (list Z * N * list Z))
+(* the model of the zstd frame structure (Compress/ZstdFrame.v) against the real zstandard library: stream = what the
+   REAL zstd.compress wrapper emitted; it must scan as one complete frame, every strict prefix cut at `cuts` must be
+   incomplete, and with `trail` appended the scan must stop after the frame with exactly `trail` left *)
+| CZstdScan (stream : list Z) (cuts : list nat) (trail : list Z).
 
 Definition ns_eqb := list_eqb N.eqb.
 Definition ev_eqb {O} (eqb : O -> O -> bool) (a b : event O) : bool :=
@@ -72,4 +77,8 @@ Definition c16_check (c : c16case) : bool :=
       && forallb (fun c => match gunzip (firstn c stream) with NeedMore => true | _ => false end) cuts
       && (match gunzip (gzip_stored payload) with Done d [] => zs_eqb d payload | _ => false end)
       && forallb (fun m => gunzip_verdict_ok (fst (fst m)) (snd (fst m)) (snd m)) mutants
+  | CZstdScan stream cuts trail =>
+      (match zstd_scan stream with ZDone [] => true | _ => false end)
+      && forallb (fun c => match zstd_scan (firstn c stream) with ZNeedMore => true | _ => false end) cuts
+      && (match zstd_scan (stream ++ trail) with ZDone r => zs_eqb r trail | _ => false end)
   end.
